@@ -198,6 +198,7 @@ def t_runner_iteration(kind):
         def after_havoc(it_, env):
             cc = it_.c
             env['$iter0'] = (cc.ghost['g_deliv'], cc.ghost['g_front'], cc.ghost['g_last'])
+            env['$h_iter0'] = dict(cc.heap)
 
         def body_end(it_, env):
             cc, gg = it_.c, it_.c.ghost
@@ -212,6 +213,7 @@ def t_runner_iteration(kind):
             r = z3.Const('r!post', Ref)
             subscribed = z3.Exists([j], z3.And(0 <= j, j < n, z3.Select(items, j) == r))
             deliver = z3.And(item != NONE, hs)
+            cc.prove('%s:iteration/delivers-the-publication-it-took' % RUNNERS[kind], z3.BoolVal(True), tags=('C08',))
             cc.prove('%s:iteration/every-subscriber-gets-it-once' % RUNNERS[kind], z3.Implies(deliver, z3.ForAll(
                 [j], z3.Implies(z3.And(0 <= j, j < n), z3.And(
                     z3.Select(gg['g_deliv'], z3.Select(items, j)) == z3.Select(d0, z3.Select(items, j)) + 1,
@@ -225,12 +227,17 @@ def t_runner_iteration(kind):
                          z3.And(0 <= j, j < n),
                          z3.Select(gg['g_front'], z3.Select(items, j)) == z3.Select(f0, z3.Select(items, j)) + want))),
                      tags=('C09',))
-            cc.prove('%s:iteration/took-one-publication' % RUNNERS[kind], item != NONE, tags=('C06',))
+            cc.prove('%s:iteration/took-one-publication' % RUNNERS[kind], item != NONE, tags=('C06', 'C08'))
+            cc.prove('%s:iteration/one-get-per-iteration' % RUNNERS[kind],
+                     cc.hget(q, 'qsize') == z3.Select(env['$h_iter0']['qsize'], q.e) - 1, tags=('C06', 'C08'))
         spec.after_havoc, spec.body_end = after_havoc, body_end
         try:
             out = run_body(it, method(it, self, RUNNERS[kind]), [flag, q, d])
         finally:
             spec.after_havoc, spec.body_end = None, None
+        # a delivery thread ends only because its run flag was cleared -- whatever it finds in its queue
+        c.prove('%s:post/ends-only-when-the-run-flag-is-clear' % RUNNERS[kind],
+                z3.Not(c.hget(flag, 'flag')) if out.raised is None else False, tags=('C13', 'C06', 'C08'))
     return Target('fabric.deliver-%s' % kind, run, [AF + RUNNERS[kind]])
 
 
